@@ -153,6 +153,26 @@ def run_decoder_stream(ctx, rt, name, strings, table_name, table, flags="-", jud
     return [idx[i - 1] for i in bad if i > 0]
 
 
+def run_graph_stream(ctx, rt, name, strings, table_name, table):
+    """graph-level tie: the MolecularGraph the real decoder builds vs the model's `decodeGraph` (atoms, roots,
+    adjacency lists with orders / stereo / ring flags, tracked counts) - what the C01/C02/C08 theorems speak about"""
+    lines, expected = [], []
+    set_table(rt, lines, expected, table)
+    idx = []
+    for s in strings:
+        if not sendable(s):
+            continue
+        mol = impl.real_decode_graph(s)
+        if mol is None:
+            continue
+        lines.append("decg\t-\t%s" % enc(s))
+        expected.append(impl.dump_decoder_graph(mol))
+        idx.append(s)
+        ctx.evaluations += 1
+    rt.corr("graph:%s[%s]" % (name, table_name), lines, expected,
+            show=lambda i: {"selfies": idx[i - 1] if i > 0 else None, "table": table_name})
+
+
 def judge_C01(ctx):
     counter = [0]
 
@@ -200,6 +220,9 @@ def check_C01(ctx, rt):
                     break
                 run_decoder_stream(ctx, rt, cname, chunk, tname, tab, judge=judge)
             ctx.sample({"stream": cname, "example": strings[len(strings) // 2][:200]})
+            if cname != "many-rings":
+                run_graph_stream(ctx, rt, cname, strings[::rt.n(9, 17)], tabs[0][0], tabs[0][1])
+                run_graph_stream(ctx, rt, cname, strings[3::rt.n(23, 41)], tabs[3][0], tabs[3][1])
         # external sanitizer clause: default table, strings over the robust alphabet
         restore_default()
         alpha = sorted(sf.get_semantic_robust_alphabet())
@@ -245,6 +268,7 @@ def check_C02(ctx, rt):
                                   "decoder result differs from the derivation-grammar rendering",
                                   selfies=s, table=tab, implementation=impl.real_decoder(s))
             ctx.sample({"stream": cname, "example": strings[len(strings) // 3][:200]})
+            run_graph_stream(ctx, rt, cname, strings[1::rt.n(9, 17)], tabs[0][0], tabs[0][1])
         # malformed: rejected exactly when reached
         mal = gens.gen_malformed_selfies(rt.rng, rt.n(2000, 40000), cases[1][1][:500])
         run_decoder_stream(ctx, rt, "malformed", mal, "default", tabs[0][1], judge=judge)
